@@ -169,7 +169,7 @@ pub fn cells() -> Vec<Cell> {
         out.push(Cell::EmptyList { subscribe: true, state });
         out.push(Cell::EmptyList { subscribe: false, state });
     }
-    for op in 0..5u8 {
+    for op in 0..10u8 {
         for death in 0..8u8 {
             out.push(Cell::DeadHandle { op, idle: false, death });
             out.push(Cell::DeadHandle { op, idle: true, death });
@@ -307,7 +307,13 @@ pub fn case_of(cell: &Cell) -> Case {
                 1 => Step::Publish(PubSpec::simple(1, 3, 4, 2)),
                 2 => Step::Publish(PubSpec::simple(2, 3, 4, 2)),
                 3 => Step::Subscribe { filters: vec![(TopicSpec::new(3, 1), so)], props: vec![], cancel: None },
-                _ => Step::Unsubscribe { filters: vec![TopicSpec::new(3, 1)], props: vec![], cancel: None },
+                4 => Step::Unsubscribe { filters: vec![TopicSpec::new(3, 1)], props: vec![], cancel: None },
+                // ill-formed requests on a dead handle: the handle is dead first of all
+                5 => Step::Subscribe { filters: vec![], props: vec![], cancel: None },
+                6 => Step::Unsubscribe { filters: vec![], props: vec![], cancel: None },
+                7 => Step::Publish(PubSpec { props: vec![Prop::ServerKeepAlive(1)], ..PubSpec::simple(1, 3, 4, 2) }),
+                8 => Step::Subscribe { filters: vec![(TopicSpec::new(3, 1), so)], props: vec![Prop::ResponseTopic("r".into())], cancel: None },
+                _ => Step::Unsubscribe { filters: vec![TopicSpec::new(3, 1)], props: vec![Prop::SubscriptionId(5)], cancel: None },
             });
             // a resumed connection afterwards must not transmit anything of the refused request
             Case { cfg: base_cfg, broker: BrokerMode::Scripted, conns: vec![conn(None, None, steps), conn(None, None, vec![Step::PollIdle { max: 6 }])] }
@@ -591,7 +597,7 @@ pub fn run(ctx: &Ctx) -> i32 {
         agg,
         Report {
             level: "exploration",
-            rule: "exhaustive enumeration: {publish(QoS 0,1,2), subscribe, unsubscribe, disconnect} x 27 property kinds x boundary values x session state {idle, in-flight incl. an exchange waiting for PUBCOMP, send quota exhausted, all in-flight slots full, one unit of send quota left}, plus will x 27 kinds x values, empty topic lists in every state, requests on a dead handle, and Maximum QoS {absent,0,1,2} x requested QoS x auto-downgrade flag; oracle = MQTT 5 legality table (MUST_ACCEPT / MUST_REJECT / UNSPECIFIED): rejected => documented error, no transport I/O, all observable session state unchanged; accepted => Ok and the property decodes from the wire. Every cell is a distinct case; non-trivial = cells whose outcome the specification fixes (not UNSPECIFIED).".into(),
+            rule: "exhaustive enumeration: {publish(QoS 0,1,2), subscribe, unsubscribe, disconnect} x 27 property kinds x boundary values x session state {idle, in-flight incl. an exchange waiting for PUBCOMP, send quota exhausted, all in-flight slots full, one unit of send quota left}, plus will x 27 kinds x values, empty topic lists in every state, well-formed and ill-formed requests on a dead handle (Disconnected either way), and Maximum QoS {absent,0,1,2} x requested QoS x auto-downgrade flag; oracle = MQTT 5 legality table (MUST_ACCEPT / MUST_REJECT / UNSPECIFIED): rejected => documented error, no transport I/O, all observable session state unchanged; accepted => Ok and the property decodes from the wire. Every cell is a distinct case; non-trivial = cells whose outcome the specification fixes (not UNSPECIFIED).".into(),
             assumptions: vec![
                 "legality table written from MQTT 5 sections 2.2.2.2, 3.1.3.2, 3.3.2.3, 3.8.2.1, 3.10.2.1, 3.14.2.2".into(),
                 "Topic Alias > 0 (broker announced no Topic Alias Maximum), Server Reference on a client DISCONNECT and an empty / wildcard Response Topic are UNSPECIFIED: executed but not judged".into(),
